@@ -456,6 +456,50 @@ def probe(ctx):
         ctx.probe_ok((key, str(replay)))
         return v
 
+    # P0: committed corpus of repaired defects and seeded misses (corpus/C18/*.jsonl), replayed first
+    import glob, json, os, copy
+    for path in sorted(glob.glob(os.path.join(common.VERIF, 'corpus', 'C18', '*.jsonl'))):
+        for ln, line in enumerate(open(path)):
+            if not line.strip():
+                continue
+            e = json.loads(line); tag = f'{os.path.basename(path)}:{ln + 1}'; why = e.get('why', '')
+            if e['kind'] == 'maxmixed':
+                d = e['d']; r = guarded(lambda: S.maximally_mixed_state(d))
+                bad = isinstance(r, str) or r.shape != (d * d, d * d) or amax(r - np.eye(d * d) / (d * d)) > 1e-15
+                msg = f'maximally_mixed_state({d}) is not I/d^2'
+            elif e['kind'] == 'maxcoh_dm':
+                d = e['d']; r = guarded(lambda: (S.maximally_coherent_state(d, return_dm=True), S.maximally_coherent_state(d)))
+                bad = isinstance(r, str) or amax(r[0] - np.outer(r[1], r[1].conj())) > 1e-12
+                msg = f'maximally_coherent_state({d}, return_dm=True) is not the projector of the ket'
+            elif e['kind'] == 'eof_ulp':
+                d = e['d']; thr = 1 / d if e['fn'] == 'get_Werner_eof' else 1 / (d + 1)
+                with np.errstate(all='ignore'):
+                    r = guarded(lambda: [float(getattr(S, e['fn'])(d, a)) for a in (thr, float(np.nextafter(thr, 2)), float(np.nextafter(np.nextafter(thr, 2), 2)))])
+                bad = isinstance(r, str) or not all(np.isfinite(v) and -1e-12 <= v <= 1e-6 for v in r)
+                msg = f'{e["fn"]}({d}, threshold + k ulp) = {r}: must be finite and ~0'
+            elif e['kind'] == 'wtype':
+                c = np.array(e['coeff'], dtype=e['dtype']); r = guarded(lambda: np.asarray(S.Wtype(c)))
+                bad = isinstance(r, str) or abs(np.vdot(r, r).real - 1) > 1e-12
+                msg = f'Wtype({e["dtype"]} {e["coeff"]}) is not normalised'
+            elif e['kind'] == 'igme_lo':
+                d = e['d']
+                with np.errstate(all='ignore'):
+                    r = guarded(lambda: float(S.get_Isotropic_GME(d, -1 / (d * d - 1))))
+                bad = isinstance(r, str) or not (r == 0)
+                msg = f'get_Isotropic_GME({d}, -1/(d^2-1)) = {r}: must be exactly 0'
+            else:
+                continue
+            if bad:
+                ctx.fail('corpus-' + e['kind'], f'corpus {tag} ({why}): {msg}', dict(op='corpus', entry=e, corpus=tag))
+            else:
+                ctx.probe_ok(('corpus', tag))
+
+    # module-level arrays of the modules behind the catalogue must be the same after the run as before
+    import importlib
+    mods = [importlib.import_module(m) for m in ('numqi.state._internal', 'numqi.entangle.upb', 'numqi.dicke', 'numqi.utils', 'numqi.unique_determine._internal', 'numqi.gate', 'numqi.gate._internal')
+            if importlib.util.find_spec(m) is not None]
+    const_before = {(m.__name__, k): np.array(v, copy=True) for m in mods for k, v in vars(m).items() if isinstance(v, np.ndarray)}
+
     for n in range(1, 13):
         v = ket_check('W-norm', lambda: S.W(n), dict(op='W', n=n), 2 ** n)
         if v is not None and (np.count_nonzero(v) != n or any(bin(i).count('1') != 1 for i in np.nonzero(v)[0]) or np.ptp(v[np.nonzero(v)]) > 1e-15):
@@ -799,6 +843,129 @@ def probe(ctx):
                     ctx.fail('chebyshev-orthonormal', f'get_chebshev_orthonormal({d},{alpha},with_computational_basis={wc}): bases not orthonormal / projectors do not resolve the identity', dict(op='chebyshev', d=d, alpha=float(alpha), with_computational_basis=wc))
                 else:
                     ctx.probe_ok(('cheb', d, wc))
+
+
+    # ------------------------------------------------------------------------------------------------------------------------------
+    # hardening: aliasing of array arguments, histories (repeat / interleave / overwrite the returned arrays), large sizes, module constants
+    def snap(x):
+        if isinstance(x, (list, tuple)):
+            return [snap(y) for y in x]
+        return np.array(x, copy=True) if isinstance(x, np.ndarray) else copy.deepcopy(x)
+
+    def same(x, y):
+        if isinstance(x, (list, tuple)):
+            return isinstance(y, (list, tuple)) and len(x) == len(y) and all(same(u, v) for u, v in zip(x, y))
+        return np.array_equal(np.asarray(x), np.asarray(y), equal_nan=True)
+
+    def poison(x):
+        if isinstance(x, (list, tuple)):
+            for y in x: poison(y)
+        elif isinstance(x, np.ndarray) and x.flags.writeable:
+            x[...] = 7
+
+    def unmodified(key, label, f, arrays, replay):
+        """call f twice on the very same argument objects: arguments bit-identical afterwards, both results equal"""
+        before = [np.array(a, copy=True) for a in arrays]
+        r = guarded(lambda: (snap(f()), snap(f())))
+        if isinstance(r, str) or not same(r[0], r[1]) or not all(np.array_equal(a, b) and a.dtype == b.dtype for a, b in zip(arrays, before)):
+            ctx.fail(key, f'{label}: ' + (f'raised {r}' if isinstance(r, str) else ('two calls on the same arguments differ' if not same(r[0], r[1]) else 'an argument array was modified')), replay)
+            return None
+        ctx.probe_ok((key, label))
+        return r[0]
+
+    with np.errstate(all='ignore'):
+        for tag, mk in [('float64', lambda c: np.array(c, dtype=np.float64)), ('int64', lambda c: np.array(c, dtype=np.int64)), ('complex128', lambda c: np.array(c, dtype=np.complex128)),
+                        ('strided', lambda c: np.array([x for y in c for x in (y, 99)], dtype=np.float64)[::2]), ('read-only', lambda c: np.array(c, dtype=np.float64))]:
+            c = mk([1, 2, 2, -1]);
+            if tag == 'read-only': c.flags.writeable = False
+            r = unmodified('aliasing-args', f'Wtype({tag})', lambda: S.Wtype(c), [c], dict(op='Wtype', coeff=[1, 2, 2, -1], variant=tag))
+            if r is not None and abs(np.vdot(r, r).real - 1) > 1e-12:
+                ctx.fail('aliasing-args', f'Wtype({tag}) not normalised', dict(op='Wtype', coeff=[1, 2, 2, -1], variant=tag))
+            al = mk([-0.2, 0.0, 0.3, 0.45, 0.9]) if tag != 'int64' else np.array([0, 1, 0, 1, 1])
+            if tag == 'read-only': al.flags.writeable = False
+            if tag == 'complex128': continue
+            for d in (2, 3, 5):
+                for fn in (S.get_Werner_eof, S.get_Werner_GME, S.get_Isotropic_eof, S.get_Isotropic_GME):
+                    r = unmodified('aliasing-args', f'{fn.__name__}({d}, {tag} array)', lambda: fn(d, al), [al], dict(op=fn.__name__, d=d, alpha=np.asarray(al, dtype=np.float64).tolist(), variant=tag))
+                    if r is not None:
+                        want = np.array([float(fn(d, float(a))) for a in np.asarray(al, dtype=np.float64)])
+                        if not np.allclose(np.asarray(r, dtype=np.float64), want, rtol=0, atol=1e-14, equal_nan=True):
+                            ctx.fail('aliasing-args', f'{fn.__name__}({d}, {tag} array) differs from the scalar evaluations', dict(op=fn.__name__, d=d, alpha=np.asarray(al, dtype=np.float64).tolist(), variant=tag))
+        six = np.array([1.1, 0.7, 0.3, 2.1, 0.9, 4.0])
+        unmodified('aliasing-args', 'load_upb(sixparam, array)', lambda: numqi.entangle.load_upb('sixparam', six, return_bes=True, ignore_warning=True), [six], dict(op='load_upb', kind='sixparam', args=six.tolist()))
+        for kind, args in upb_cases(ctx)[:12]:
+            upb = guarded(lambda: numqi.entangle.load_upb(kind, args, ignore_warning=True))
+            if isinstance(upb, str):
+                continue
+            arrs = list(upb)
+            label = upb_label(kind, args)
+            unmodified('aliasing-args', f'upb_to_bes(load_upb({label}))', lambda: numqi.entangle.upb_to_bes(upb), arrs, dict(op='upb_to_bes', kind=kind, args=args))
+            unmodified('aliasing-args', f'get_upb_product(load_upb({label}))', lambda: numqi.entangle.get_upb_product(upb), arrs, dict(op='get_upb_product', kind=kind, args=args))
+            prod = numqi.entangle.get_upb_product(upb)
+            r = unmodified('aliasing-args', f'upb_to_bes(product of {label})', lambda: numqi.entangle.upb_to_bes(prod), [prod], dict(op='upb_to_bes', kind=kind, args=args, variant='product array'))
+            if r is not None and amax(r - numqi.entangle.upb_to_bes(upb)) > 1e-14:
+                ctx.fail('aliasing-args', f'upb_to_bes(product array) != upb_to_bes(list) for {label}', dict(op='upb_to_bes', kind=kind, args=args))
+
+        # histories: every constructor repeated, interleaved with the others, and with the returned arrays overwritten by the caller
+        cons = [('W3', lambda: S.W(3)), ('W5', lambda: S.W(5)), ('GHZ3', lambda: S.GHZ(3)), ('Bell2', lambda: S.Bell(2)), ('Dicke21', lambda: S.Dicke(2, 1)), ('Werner3', lambda: S.Werner(3, 0.4)),
+                ('Iso3', lambda: S.Isotropic(3, 0.4)), ('mm3', lambda: S.maximally_mixed_state(3)), ('me3', lambda: S.maximally_entangled_state(3)), ('mc4', lambda: S.maximally_coherent_state(4)),
+                ('mc4dm', lambda: S.maximally_coherent_state(4, return_dm=True)), ('h24', lambda: S.get_bes2x4_Horodecki1997(0.3)), ('h33', lambda: S.get_bes3x3_Horodecki1997(0.3)),
+                ('ant', lambda: S.get_2qutrit_Antoine2022(0.7)), ('tetra2', lambda: numqi.utils.get_tetrahedron_POVM(2)), ('tetra1', lambda: numqi.utils.get_tetrahedron_POVM(1)),
+                ('cheb5', lambda: numqi.unique_determine.get_chebshev_orthonormal(5, 0.3, return_basis=True)), ('cheb4c', lambda: numqi.unique_determine.get_chebshev_orthonormal(4, 0.3, with_computational_basis=True)),
+                ('weof', lambda: S.get_Werner_eof(3, np.linspace(-1, 1, 7))), ('igme', lambda: S.get_Isotropic_GME(3, np.linspace(-0.125, 1, 7)))]
+        for kind, args in upb_cases(ctx):
+            cons.append((upb_label(kind, args), (lambda kind=kind, args=args: numqi.entangle.load_upb(kind, args, return_bes=True, ignore_warning=True))))
+            cons.append((upb_label(kind, args) + '-product', (lambda kind=kind, args=args: numqi.entangle.load_upb(kind, args, return_product=True, ignore_warning=True))))
+        first = {}
+        order = cons + cons + [cons[i] for i in rng.sample(range(len(cons)), len(cons))] + cons[::-1]
+        for step, (name, f) in enumerate(order):
+            r = guarded(lambda: snap(f()))
+            if isinstance(r, str):
+                ctx.fail('history-repeat', f'step {step}: {name} raised {r}', dict(op='history', step=step, name=name)); continue
+            if name not in first:
+                first[name] = r
+            elif not same(r, first[name]):
+                ctx.fail('history-repeat', f'step {step}: {name} differs from its first result (calls so far: repeat, interleave, overwrite returned arrays); previous calls {[n for n, _ in order[max(0, step - 4):step]]}',
+                         dict(op='history', step=step, name=name, previous=[n for n, _ in order[:step]][-10:]))
+            else:
+                ctx.probe_ok(('hist', name, step))
+            guarded(lambda: poison(f()))      # the returned arrays belong to the caller: overwriting them must not leak into later calls
+
+        # sizes across the documented ranges, up to the largest that is cheap
+        big = [('W', lambda: S.W(20), 2 ** 20), ('GHZ', lambda: S.GHZ(20), 2 ** 20), ('maximally_entangled_state', lambda: S.maximally_entangled_state(300), 90000),
+               ('maximally_coherent_state', lambda: S.maximally_coherent_state(100000), 100000), ('Dicke(5,4)', lambda: S.Dicke(5, 4), 2 ** 9), ('Dicke(3,3,2)', lambda: S.Dicke(3, 3, 2), 3 ** 8),
+               ('Wtype(18)', lambda: S.Wtype(np.arange(1.0, 19.0)), 2 ** 18)]
+        for name, f, dim in big:
+            v = guarded(f)
+            if isinstance(v, str) or v.shape != (dim,) or abs(np.vdot(v, v).real - 1) > 1e-10:
+                ctx.fail('large-size', f'{name} at a large size is not a normalised ket of dimension {dim}: ' + (v if isinstance(v, str) else f'norm^2={np.vdot(v, v).real}'), dict(op=name, size='large'))
+            else:
+                ctx.probe_ok(('big', name))
+        for name, f, dim in [('maximally_mixed_state(40)', lambda: S.maximally_mixed_state(40), 1600), ('Werner(30,0.9)', lambda: S.Werner(30, 0.9), 900), ('Isotropic(30,-1/899)', lambda: S.Isotropic(30, -1 / 899), 900),
+                             ('maximally_coherent_state(300,dm)', lambda: S.maximally_coherent_state(300, return_dm=True), 300)]:
+            rho = guarded(f)
+            if isinstance(rho, str) or rho.shape != (dim, dim) or abs(np.trace(rho) - 1) > 1e-10 or amax(rho - rho.T.conj()) > 1e-14 or (dim <= 900 and min_eig(rho) < -1e-10):
+                ctx.fail('large-size', f'{name} is not a density matrix of dimension {dim}: ' + (rho if isinstance(rho, str) else f'trace {np.trace(rho)}'), dict(op=name, size='large'))
+            else:
+                ctx.probe_ok(('big', name))
+        for n in ([5] if ctx.quick() else [5, 6]):
+            P = guarded(lambda: numqi.utils.get_tetrahedron_POVM(n))
+            if isinstance(P, str) or P.shape != (4 ** n, 2 ** n, 2 ** n) or amax(P.sum(axis=0) - np.eye(2 ** n)) > 1e-10:
+                ctx.fail('large-size', f'get_tetrahedron_POVM({n}) does not resolve the identity', dict(op='tetrahedron', n=n))
+            else:
+                ctx.probe_ok(('big', 'tetra', n))
+        for d in ([64] if ctx.quick() else [64, 128]):
+            r = guarded(lambda: numqi.unique_determine.get_chebshev_orthonormal(d, 0.3, return_basis=True)[1])
+            if isinstance(r, str) or max(amax(B.conj() @ B.T - np.eye(d)) for B in r) > 1e-9:
+                ctx.fail('large-size', f'get_chebshev_orthonormal({d}) bases not orthonormal', dict(op='chebyshev', d=d))
+            else:
+                ctx.probe_ok(('big', 'cheb', d))
+
+    changed = [k for k, v in const_before.items() if not np.array_equal(getattr(importlib.import_module(k[0]), k[1]), v, equal_nan=True)]
+    if changed:
+        ctx.fail('module-constants', f'module-level arrays changed during the run: {changed}', dict(op='module-constants', changed=[list(k) for k in changed]))
+    else:
+        ctx.probe_ok(('module-constants', len(const_before)))
 
 
 def search(ctx, hints):
